@@ -461,6 +461,9 @@ def main():
         for g in cfg.get("gens", []):
             mod = importlib.import_module(g)
             reqs += mod.gen(rng, tier)
+    if reqs and not args.replay:
+        import genlib
+        reqs += genlib.augment_boundaries(reqs, random.Random(seed + 7))
     lines = corpus + reqs
     stats = {"requests": len(lines), "corpus": len(corpus)}
     samples = []
